@@ -30,7 +30,7 @@ X == V(0)
 Y == V(1)
 Z == V(2)
 T0 == {A("a"), A("b"), I("1"), NIL, X, Y, Z}
-T1 == T0 \cup {C("f", <<x>>) : x \in T0} \cup {C("g", <<x>>) : x \in T0}
+T1 == T0 \cup {C("f", <<>>)} \cup {C("f", <<x>>) : x \in T0} \cup {C("g", <<x>>) : x \in T0}
          \cup {C("f", <<x, y>>) : x \in T0, y \in T0} \cup {Cons(x, y) : x \in T0, y \in {NIL, X, Y, Z}}
 
 PriorQuick == {<<>>, << <<X, A("a")>> >>, << <<X, Y>> >>, << <<X, C("f", <<Y>>)>> >>,
@@ -188,5 +188,7 @@ Emit == (phase = "start") =>
                          y |-> ~Ref.fail,
                          at |-> IF Ref.fail THEN <<>>
                                 ELSE CanonSeq(<<Resolve(t1, Ref.s), Resolve(t2, Ref.s), Resolve(X, Ref.s), Resolve(Y, Ref.s), Resolve(Z, Ref.s)>>),
-                         bound0 |-> BoundSet(heap)]))
+                         bound0 |-> BoundSet(heap),
+                         \* what X, Y, Z stand for under the stack alone (used for the follow-up unifications)
+                         pv |-> CanonSeq(<<Resolve(X, RefS.s), Resolve(Y, RefS.s), Resolve(Z, RefS.s)>>)]))
 =============================================================================
